@@ -191,36 +191,40 @@ def check(ctx):
                         o.fail(P, f'{cname}.{e}', cl, 'the cycle timer is not scheduled under the device id (it would not be paused/cancelled with the device)', node=n)
                     if sched_action_name(cl) != '_finish_cycle':
                         o.fail(P, f'{cname}.{e}', cl, 'the cycle timer does not run _finish_cycle', node=n)
-                    # frame discipline: offset reset on every path through the scheduling helper; sync finish iff duration <= 0
-                    fr = n.frame
-                    enter = [m for m in g.nodes.values() if m.kind == 'call_enter' and m.frame is fr]
-                    leave = [m for m in g.nodes.values() if m.kind == 'call_exit' and m.frame is fr]
-                    resets = [m for m in g.nodes.values() if m.frame is fr and m.kind == 'stmt' and isinstance(m.ast, ast.Assign)
+                    # offset reset on every path that starts a cycle (timed or synchronous); sync finish iff duration <= 0.  Decided on the
+                    # whole entry graph, so the computation, the reset and the timer may live in different helpers
+                    sync = [x for x in g.nodes.values() if x.kind == 'call_enter' and x.frame.func.name == '_finish_cycle' and x.frame.parent is not None]
+                    resets = [m for m in g.nodes.values() if m.kind == 'stmt' and isinstance(m.ast, ast.Assign)
                               and any(is_self_attr(x, '_next_cycle_time_offset') for x in m.ast.targets)
                               and isinstance(m.ast.value, ast.Constant) and m.ast.value.value == 0]
-                    reads = [m for m in g.nodes.values() if m.frame is fr and m.kind in ('stmt', 'cond') and m not in resets
-                             and '_next_cycle_time_offset' in m.src()]
                     o.count()
-                    if enter and leave:
-                        if not resets or leave[0].id in g.reach([enter[0].id], avoid={m.id for m in resets}):
-                            o.fail(P, f'{cname}.{e}', 'self._next_cycle_time_offset = 0', 'the one-shot offset is not reset on every path that starts a cycle', node=n)
-                        elif any(r.id in g.reach([m.id for m in resets]) and r.id not in g.reach([enter[0].id], avoid={m.id for m in resets}) for r in reads):
-                            o.fail(P, f'{cname}.{e}', 'self._next_cycle_time_offset = 0', 'the one-shot offset is reset before it is read', node=n)
+                    starts = [n] + sync
+                    unreset = [x for x in starts if x.id in g.reach([g.entry], avoid={m.id for m in resets}, follow=lambda l: l != 'exc')]
+                    if not resets or unreset:
+                        o.fail(P, f'{cname}.{e}', 'self._next_cycle_time_offset = 0', 'the one-shot offset is not reset on every path that starts a cycle', node=n)
+                    else:
+                        # the offset is read (for the duration) before it is reset: no read of it between a reset and the start of the cycle
+                        after_reset = g.reach([x for m in resets for l, x in g.succ[m.id] if l != 'exc'], follow=lambda l: l != 'exc')
+                        def reads_offset(m):
+                            return m.kind in ('stmt', 'cond', 'return') and m.ast is not None and m not in resets and any(
+                                isinstance(x, ast.Attribute) and x.attr == '_next_cycle_time_offset' and isinstance(x.ctx, ast.Load) for x in ast.walk(m.ast))
+                        late = [m for m in g.nodes.values() if m.id in after_reset and reads_offset(m)
+                                and any(x.id in g.reach([m.id], follow=lambda l: l != 'exc') for x in starts)]
+                        if late:
+                            o.fail(P, f'{cname}.{e}', 'self._next_cycle_time_offset = 0', 'the one-shot offset is reset before it is read', node=late[0])
                         else:
                             o.witness((cname, e, 'reset'))
-                    conds = [m for m in g.nodes.values() if m.frame is fr and m.kind == 'cond']
+                    conds = [m for m in g.nodes.values() if m.kind == 'cond']
                     o.count()
                     okc = False
                     for m in conds:
                         for truth in (True, False):
-                            r = cmp_norm(N, m.ast, env, truth)
+                            r = cmp_norm(N, m.ast, FrameEnv(m.frame), truth, names=True)
                             if r and r[1] == '<=' and r[0].is_({want_atom: 1}):
                                 zero_lbl, pos_lbl = ('T', 'F') if truth else ('F', 'T')
-                                zr = g.reach([x for l, x in g.succ[m.id] if l == zero_lbl])
-                                pr = g.reach([x for l, x in g.succ[m.id] if l == pos_lbl], avoid={x.id for x in leave})
-                                sync = [x for x in g.nodes.values() if x.kind == 'call_enter' and x.frame.func.name == '_finish_cycle' and x.frame.parent is fr]
-                                if sync and all(x.id in zr for x in sync) and n.id not in g.reach([x for l, x in g.succ[m.id] if l == zero_lbl], avoid={x.id for x in leave}) \
-                                        and n.id in pr and not any(x.id in pr for x in sync):
+                                zr = g.reach([x for l, x in g.succ[m.id] if l == zero_lbl], follow=lambda l: l != 'exc')
+                                pr = g.reach([x for l, x in g.succ[m.id] if l == pos_lbl], follow=lambda l: l != 'exc')
+                                if sync and any(x.id in zr for x in sync) and n.id not in zr and n.id in pr and not any(x.id in pr for x in sync):
                                     okc = True
                     if not okc:
                         o.fail(P, f'{cname}.{e}', 'if next_cycle_time <= 0: self._finish_cycle()', 'the cycle must finish synchronously exactly when its duration is <= 0 and be timed otherwise', node=n)
@@ -250,7 +254,7 @@ def check(ctx):
         o.fail(P, 'PartHandler.offset_next_cycle_time', 'self._next_cycle_time_offset += offset', 'one-shot offsets must accumulate', file=PH.mod.path, line=fn.lineno)
     for s in inv.attr_stores(P, '_next_cycle_time_offset'):
         o.count()
-        if not (s.cls is PH and s.func.name in ('__init__', 'offset_next_cycle_time', '_schedule_finish_cycle')):
+        if not (s.cls is PH and s.func.name in inv.covered(P, {'__init__', 'offset_next_cycle_time', '_schedule_finish_cycle'})):
             o.fail(P, s.ctx, s.stmt, 'the one-shot cycle offset is written outside its owners', file=s.mod.path, line=s.line)
     for s in inv.attr_stores(P, '_cycle_time'):
         o.count()
